@@ -552,7 +552,8 @@ EVAL = {
         "exh": {"quick": [("C07_Docs", 1, 2, "C07_Range")], "thorough": [("C07_Docs", 1, 2, "C07_Range"), ("C07_Docs3", 3, 3, "C07_Range3")]},
         "mutations": [{"switch": "DefaultSafeOverwrite", "docs": "C07_Docs", "range": "C07_Range", "stages": (2, 2), "expect": ["Inv_C07_Trees", "Inv_C07_Eval"]},
                       {"mutation": "NoArgGate", "docs": "C07_Docs", "range": "C07_Range", "stages": (1, 1), "expect": ["Inv_C07_Eval"]},
-                      {"mutation": "NoFnGate", "docs": "C07_Docs", "range": "C07_Range", "stages": (2, 2), "expect": ["Inv_C07_Eval"]}],
+                      {"mutation": "NoFnGate", "docs": "C07_Docs", "range": "C07_Range", "stages": (2, 2), "expect": ["Inv_C07_Eval"]},
+                      {"mutation": "NoTaint", "docs": "C07_Docs", "range": "C07_Range", "stages": (1, 1), "expect": ["Inv_C07_Eval"]}],
         "gen": _gen_c07, "random": {"quick": 1500, "thorough": 25000}, "max_stages": 3,
         "nontrivial": _c07_nontrivial,
         "rule": "A: first documents with a !call / !bind / !import / placeholder at f (argument static, cross-referenced, a nested call; "
